@@ -208,8 +208,24 @@ def _extract_sglib_class(m, cname, cdef, settings, info):
                 raise AnalysisError("sglib %s (%s): attributes never assigned: %s" % (cname, s.arm, missing))
 
 
+def _home_of_table(m, name):
+    """a table the module imports from another module of the package (`from xfab._sgnames import sgdic`) is read where it is
+    written; -> the module that assigns it (m itself, usually)"""
+    for _ in range(4):
+        if name in m.assigns or name not in m.imports:
+            return m
+        dotted = m.imports[name]
+        if not dotted.startswith("xfab.") or not dotted.endswith("." + name):
+            return m
+        try:
+            m = module(dotted[:-len(name) - 1].replace(".", "/") + ".py")
+        except AnalysisError:
+            return m
+    return m
+
+
 def extract_sgdic(rel="xfab/sg.py"):
-    m = module(rel)
+    m = _home_of_table(module(rel), "sgdic")
     if "sgdic" not in m.assigns:
         raise AnalysisError("anchor vanished: sgdic in %s" % rel)
     node = m.assigns["sgdic"].value
@@ -235,7 +251,7 @@ def _evaluated_table(m, name, lineno, conv):
 
 
 def extract_formfactor(rel="xfab/atomlib.py"):
-    m = module(rel)
+    m = _home_of_table(module(rel), "formfactor")
     if "formfactor" not in m.assigns:
         raise AnalysisError("anchor vanished: formfactor in %s" % rel)
     node = m.assigns["formfactor"].value
@@ -291,18 +307,35 @@ class SegmModel:
         from .objeval import ObjEvaluator, PyRaise
         from .symeval import Arr, RaiseReached, sym_array, const_int, materialise, _Return
         from .poly import Rat
+        class WalkStarted(AnalysisError):
+            frames = ()
+
+        class PrefixEval(ObjEvaluator):
+            # the environments of the running frames, innermost last (the walk may start inside a helper or a generator of
+            # another module: the table that is alive THERE is the table of the walk)
+            def exec_block(self, stmts, env_):
+                root = self.__dict__.get("_root") or self
+                fr = root.__dict__.setdefault("_frames", [])
+                fr.append(env_)
+                try:
+                    return ObjEvaluator.exec_block(self, stmts, env_)
+                finally:
+                    fr.pop()
+
         def walk_started(name, args, kwargs, node):
             # the prefix ends where the walk begins: its first use of the metric or of the reflection conditions
             if name in ("sintl", "sysabs", "sysabs_unique"):
-                raise AnalysisError("genhkl_base: the walk starts (call of %s, line %d)" % (name, getattr(node, "lineno", 0)))
+                e_ = WalkStarted("genhkl_base: the walk starts (call of %s, line %d)" % (name, getattr(node, "lineno", 0)))
+                e_.frames = list(ev.__dict__.get("_frames", []))
+                raise e_
             return NotImplemented
-        ev = ObjEvaluator(self.mod, inline=set(), max_depth=8, sign_policy=lambda d, node=None: sign, call_policy=walk_started)
+        ev = PrefixEval(self.mod, inline=set(), max_depth=8, sign_policy=lambda d, node=None: sign, call_policy=walk_started)
         fn = self.fn
         env = {}
         given = {"Laue_class": Laue, "cell_choice": cc, "crystal_system": csys if csys is not None else "triclinic",
                  "unit_cell": sym_array("unit_cell", (6,)), "sysconditions": sym_array("sysconditions", (26,)),
                  "sintlmin": Rat.atom("sintlmin"), "sintlmax": Rat.atom("sintlmax"), "output_stl": None}
-        params = [a.arg for a in fn.args.args]
+        params = [a.arg for a in list(getattr(fn.args, "posonlyargs", [])) + list(fn.args.args)]
         nd = len(fn.args.defaults)
         for i, p in enumerate(params):
             if p in given:
@@ -396,6 +429,17 @@ class SegmModel:
                 for t in tables_in(v):
                     if t not in found:
                         found.append(t)
+        if not found and isinstance(stop_error, WalkStarted):
+            # the walk started below the function's own statements: the innermost running frame that holds a cone table
+            for fr_ in reversed(stop_error.frames):
+                here = []
+                for v in fr_.values():
+                    for t in tables_in(v):
+                        if t not in here:
+                            here.append(t)
+                if here:
+                    found = here
+                    break
         if not found and stop_error is not None:
             raise stop_error
         if len(found) > 1:
